@@ -589,8 +589,9 @@ func (i *IRCServer) ThrottleUntil(sessionid robust.Id) time.Time {
 	if cooloff == 0 {
 		return time.Time{}
 	}
-	i.sessionsMu.RLock()
-	defer i.sessionsMu.RUnlock()
+	// ThrottleUntil modifies throttlingExponent, so a read lock is not enough.
+	i.sessionsMu.Lock()
+	defer i.sessionsMu.Unlock()
 
 	if s, ok := i.sessions[sessionid]; ok && !s.Server {
 		// Reset throttlingExponent when the session was idle long enough.
